@@ -28,8 +28,8 @@ def cfg(name, spec, sockets, nmsgs, nextra, rounds, polls, invs=None, props=None
 
 
 def run(v, tier, seed):
-    vlib.make("plain", "th")
-    th = vlib.binpath("plain", "th")
+    thname, private_ok = vlib.make_with_fallback("plain", "th")
+    th = vlib.binpath("plain", thname)
     W = lambda n: vlib.scratch("C11", n)
     tot = {"states": 0, "transitions": 0, "explore": 0, "yields": 0, "events": 0, "trace_lines": 0, "traces": 0, "plans": 0}
     mc_notes = []; samples = []
@@ -55,6 +55,8 @@ def run(v, tier, seed):
             vlib.harness_failed(v, rc, out, err, "th explore (sockets=%s, seed %d)" % (sockets, seed), "crash%d" % int(sockets))
             return [{"summary": True, "executions": 0, "yields": 0, "events": 0, "traces_written": 0, "trace_lines": 0, "distinct_plans": 0}], True, None, None, None, []
         rows = vlib.read_ndjson(rep)
+        if not private_ok or not os.path.exists(tr) or os.path.getsize(tr) == 0:
+            return rows, True, None, None, tr, []
         r = vlib.tlc("ThreadTrace", "Trace_%s.cfg" % ("sock" if sockets else "wc"), "ThreadQueue", workers=1, timeout=1800, env={"TRACE": tr}, keep_out=True)
         accepted = (r.violated == "NotAccepted")
         other = r.violated if (r.violated and r.violated != "NotAccepted") else None
